@@ -535,6 +535,14 @@ def setter(ctx, net, m, name, arg, cid, hist):
         expect_density(m, arg)
     elif name == "set_non_local":
         m.nl = bool(arg)
+    elif name == "set_directed":
+        # Hilbert networks: directed = links masked by the sign of the
+        # phase shift; undirected = the plain thresholded coherence
+        m.directed = bool(arg)
+        m.mask = (np.asarray(net.phase_shift()) > 0) if arg else None
+        m.S32 = np.array(net.similarity_measure(), dtype=np.float32,
+                         copy=True)
+        m.sym = bool(np.array_equal(m.S32, m.S32.T))
     return True
 
 
@@ -589,6 +597,10 @@ def history(ctx, rng, net, m, length, cid):
         else:
             name = "set_non_local"
             arg = (not m.nl) if rng.random() < 0.75 else m.nl
+        if callable(getattr(net, "set_directed", None)) and \
+                rng.random() < 0.3:
+            name = "set_directed"
+            arg = (not m.directed) if rng.random() < 0.7 else m.directed
         if rng.random() < 0.5:
             # a read-only query between two changes (results are cached on
             # the object; the next change must still start from the
